@@ -3,14 +3,14 @@ CONSTANTS
   Contents <- C2
   Sources <- Both
   BuildDepth = 3
-  EvalDepth = 3
-  Emit = TRUE
+  EvalDepth = 2
+  Emit = FALSE
+  FixF27 <- FixOff
 INVARIANT EvalOnce
 INVARIANT PayTruthful
 INVARIANT ProcessedAll
 INVARIANT ContentKept
 INVARIANT ProcessRefines
 INVARIANT WrapSound
-INVARIANT EmitState
 PROPERTY WriteOnce
 CHECK_DEADLOCK FALSE
